@@ -264,6 +264,8 @@ class P:
             if v.endswith("!"):
                 raise NoParse()
             return ("id", v)
+        if k in ("str", "chr"):
+            return ("lit", v)
         if k == "op" and v == "(":
             e = self.expr()
             if self.next()[1] != ")":
@@ -322,6 +324,8 @@ class Flow:
             return e[1]
         if k == "int":
             return str(e[1])
+        if k == "lit":
+            return e[1]
         if k == "un":
             return e[1] + self.src(e[2])
         if k == "bin":
